@@ -38,6 +38,7 @@ def _case(draw, unit):
     else:
         mask = [draw(st.integers(0, 1)) for _ in range(J)]
     case['none_mask'] = mask          # 1 = level passed as None, finest first
+    case['zero_mask'] = [int(draw(st.integers(0, 4)) == 0) for _ in range(J)]   # level present but all zeros
     case['rp'] = draw(core.recipe_strategy())
     return case
 
@@ -60,8 +61,19 @@ def ambiguous_none(mask, per_axis):
 def _inverse(case):
     from pytorch_wavelets import DWT1DInverse, DWTInverse
     cls = DWT1DInverse if case['dim'] == 1 else DWTInverse
+    msp = case.get('mode_spelling', case['mode'])
     with dwtu.default_dtype(dwtu.tdt(case['dtype'])):
-        return cls(wave=c01.wave_arg(case, 'rec'), mode=case.get('mode_spelling', case['mode']))
+        sib = dwtu.sibling(case['wave']) if (case.get('reused') and not case.get('wave_row')) else None
+        if sib is None:
+            return cls(wave=c01.wave_arg(case, 'rec'), mode=msp)
+
+        def warm(m):
+            k_ = 2 * dwtu.flen(case['wave']) + 2
+            yl_ = torch.ones([1, case['C']] + [k_] * case['dim'], requires_grad=True)
+            yh_ = torch.ones([1, case['C']] + ([k_] if case['dim'] == 1 else [3, k_, k_]), requires_grad=True)
+            m((yl_, [yh_])).sum().backward()
+        return dwtu.reused_module(lambda: cls(wave=c01.wave_arg(case, 'rec'), mode=msp),
+                                  lambda: cls(wave=sib, mode=msp), warm)
 
 
 def run_case(case):
@@ -152,6 +164,10 @@ def run_case(case):
     if f32:
         dyl = dyl.astype(np.float32).astype(np.float64)
         dyh = [h.astype(np.float32).astype(np.float64) for h in dyh]
+    zmask = case.get('zero_mask', [0] * J)
+    dyh = [np.zeros_like(h) if zmask[j] else h for j, h in enumerate(dyh)]
+    r.label('explicit_zero_level' if any(z and not m_ for z, m_ in zip(zmask, mask)) else None,
+            'reused_module' if case.get('reused') and not case.get('wave_row') and dwtu.sibling(w) else None)
     zyh = [np.zeros_like(h) if mask[j] else h for j, h in enumerate(dyh)]
     want = ref(dyl, zyh)
     cmax = max([core.maxabs(dyl)] + [core.maxabs(h) for h in zyh])
